@@ -1,8 +1,10 @@
 (* Property C10 - each committed store state is a consistent chain; crashes lose whole blocks only.
    In the model one delivery is one database commit (the harness checks on the implementation that a delivery makes
    at most one commit and that a refused one leaves the store byte-identical), so "every committed state" = every
-   state reachable by deliveries.  Statements only; proofs in Proofs/Restart.v, Proofs/ForkChoice.v. *)
-From Virel Require Import Lib.Config Lib.U64 Lib.AMap Model.Ledger Model.Node Proofs.NodeBasics Proofs.ForkChoice Proofs.Restart.
+   state reachable by deliveries.  Statements only; proofs in Proofs/Restart.v, Proofs/ForkChoice.v, Proofs/ChainInv.v,
+   Proofs/ChainRun.v, Proofs/ChainHeights.v, Proofs/ChainExamples.v. *)
+From Virel Require Import Lib.Config Lib.U64 Lib.AMap Model.Ledger Model.Node Spec.Chain Proofs.NodeBasics Proofs.ForkChoice
+  Proofs.Restart Proofs.ChainInv Proofs.ChainRun Proofs.ChainHeights Proofs.ChainExamples Gen.Params.
 Open Scope N_scope.
 
 (* every reachable state: the tip's block exists, no stored block is heavier, and the start-up reorganisation check
@@ -41,8 +43,99 @@ Theorem C10_rejected_unchanged : forall cfg genesis_addr team_key n b now n' c a
 Proof. exact deliver_rejected_unchanged. Qed.
 Print Assumptions C10_rejected_unchanged.
 
+(* "each committed store state is a consistent chain": after EVERY sequence of fewer than 2^64 - 1 deliveries (any
+   blocks - valid, invalid, forked, duplicated, children before parents - with any clock readings; the bound is there
+   because checkBlock compares heights in uint64 arithmetic)
+   (a) the block store is a tree rooted at genesis: keys are the blocks' hashes, genesis is stored at height 0, every other
+       stored block has a stored parent exactly one height below (no orphans);
+   (c) the tip fields are the height and the cumulative difficulty of the stored block named by the tip hash;
+   (b) the height index is exactly the main chain: index[top_h] = tip, index[0] = genesis, every entry up to top_h is a
+       stored block of that height whose parent is the entry below, and there is NO entry above top_h (a reorganisation
+       to a heavier but shorter chain removes them). *)
+Theorem C10_every_commit_consistent_chain : forall cfg genesis_addr team_key g n0 ops,
+  node0 cfg genesis_addr g = Ok n0 -> b_height g = 0 -> b_cd g = b_diff g ->
+  N.of_nat (length ops) < two64 - 1 ->
+  let n := run cfg genesis_addr team_key n0 ops in
+  (forall h b, get_block n h = Some b -> b_hash b = h) /\
+  (exists g0, get_block n (b_hash g) = Some g0 /\ b_height g0 = 0) /\
+  (forall h b, get_block n h = Some b -> h <> b_hash g ->
+     exists p, get_block n (prev_hash b) = Some p /\ b_height b = b_height p + 1) /\
+  (exists t, get_block n (top n) = Some t /\ b_height t = top_h n /\ b_cd t = top_cd n) /\
+  get_topo n (top_h n) = Some (top n) /\
+  get_topo n 0 = Some (b_hash g) /\
+  (forall ht, top_h n < ht -> get_topo n ht = None) /\
+  (forall ht, ht <= top_h n ->
+     exists y yb, get_topo n ht = Some y /\ get_block n y = Some yb /\ b_height yb = ht /\
+                  (0 < ht -> get_topo n (ht - 1) = Some (prev_hash yb))).
+Proof. exact chain_structure_always. Qed.
+Print Assumptions C10_every_commit_consistent_chain.
+
+(* the invariants behind it are inductive for a single commit (any outcome), on any state holding fewer than 2^64 blocks *)
+Theorem C10_commit_preserves_chain : forall cfg genesis_addr team_key gh n b now n' out amb,
+  CInv gh n -> FInv n -> N.of_nat (length (blocks n)) < two64 ->
+  deliver cfg genesis_addr team_key n b now = (n', out, amb) -> CInv gh n'.
+Proof. exact deliver_CInv. Qed.
+Print Assumptions C10_commit_preserves_chain.
+
+Theorem C10_commit_preserves_heights : forall cfg genesis_addr team_key gh n b now n' out amb,
+  CInv gh n -> FInv n -> HInv n -> N.of_nat (length (blocks n)) < two64 ->
+  deliver cfg genesis_addr team_key n b now = (n', out, amb) -> HInv n'.
+Proof. exact deliver_HInv. Qed.
+Print Assumptions C10_commit_preserves_heights.
+
+(* clause (c) by itself: the stored height of the tip (stats.TopHeight) is the height of the tip block.
+   This clause was REFUTED for the code before /repo 82cbb1b (finding R20): stats.Tips was keyed by the hash of the
+   block that opened an alternative tip, addAltchainBlock found the entry by the new block's parent hash and did Height++
+   on it even when the entry already named a descendant of that parent; a reorganisation to such a block ended with
+   TopHeight one too high.  It was found while proving this invariant (the induction step of add_altchain_block needs the
+   recorded height of the entry to be the height of its key block) and witnessed by a five-block history, now
+   [stale_key_history_example] in Proofs/ChainExamples.v and the ledger scenario "stalekey" (Check/C17 code 1). *)
+Theorem C10_top_height_is_tip_height : forall cfg genesis_addr team_key g n0 ops,
+  node0 cfg genesis_addr g = Ok n0 -> b_height g = 0 -> b_cd g = b_diff g ->
+  N.of_nat (length ops) < two64 - 1 ->
+  let n := run cfg genesis_addr team_key n0 ops in
+  exists t, get_block n (top n) = Some t /\ b_height t = top_h n /\ b_cd t = top_cd n.
+Proof. exact top_height_is_tip_height. Qed.
+Print Assumptions C10_top_height_is_tip_height.
+
+(* every alternative tip entry is filed under the hash of the block it names and records that block's height and weight *)
+Theorem C10_tip_entries_exact : forall cfg genesis_addr team_key g n0 ops,
+  node0 cfg genesis_addr g = Ok n0 -> b_height g = 0 -> b_cd g = b_diff g ->
+  N.of_nat (length ops) < two64 - 1 ->
+  let n := run cfg genesis_addr team_key n0 ops in
+  forall k tp, In (k, tp) (tips n) ->
+    k = t_hash tp /\ exists tb, get_block n (t_hash tp) = Some tb /\ b_height tb = t_height tp /\ b_cd tb = t_cd tp.
+Proof. exact tips_always_exact. Qed.
+Print Assumptions C10_tip_entries_exact.
+
+(* non-vacuity: the premises hold for a concrete history with a reorganisation to a heavier but shorter chain; the index
+   loses its entry of height 3 *)
+Theorem C10_chain_premises_satisfiable :
+  exists n0, node0 cfg_verifnet 7 w_genesis = Ok n0 /\ b_height w_genesis = 0 /\ b_cd w_genesis = b_diff w_genesis /\
+    N.of_nat (length sr_ops) < two64 - 1 /\
+    w_outcomes n0 sr_ops = [Accepted; Accepted; Accepted; Accepted; Accepted] /\
+    (let n := run cfg_verifnet 7 0 n0 (firstn 4 sr_ops) in
+     topo n = [(0, 1); (1, 2); (2, 3); (3, 8)] /\ top n = 8 /\ top_h n = 3) /\
+    (let n := run cfg_verifnet 7 0 n0 sr_ops in
+     topo n = [(0, 1); (1, 4); (2, 6)] /\ top n = 6 /\ top_h n = 2 /\ walk (blocks n) 2 (top n) = [6; 4; 1] /\
+     tips n = [(8, mktip 8 3 11)]).
+Proof. exact shorter_heavier_reorg_example. Qed.
+Print Assumptions C10_chain_premises_satisfiable.
+
+(* the history that refuted clause (c) before the repair: now the reorganisation to the second child D of B ends with
+   top_h = 2 = height of D, and the sibling tip C keeps its own entry *)
+Theorem C10_stale_key_history :
+  exists n0, node0 cfg_verifnet 7 w_genesis = Ok n0 /\
+    w_outcomes n0 w_ops = [Accepted; Accepted; Accepted; Accepted; Accepted] /\
+    let n := run cfg_verifnet 7 0 n0 w_ops in
+    topo n = [(0, 1); (1, 4); (2, 6)] /\ top n = 6 /\ top_h n = 2 /\
+    tips n = [(5, mktip 5 2 9); (3, mktip 3 2 9)].
+Proof. exact stale_key_history_example. Qed.
+Print Assumptions C10_stale_key_history.
+
 (* NOT PROVED (stated): the ledger of every reachable state equals the replay of its main chain, and a node restarted
-   from any commit prefix reaches the same final chain.  Both are checked on the implementation for the crash points of
+   from any commit prefix reaches the same final chain (the chain structure of every commit IS proved above; what is
+   missing is the ledger component and the equality of the final tips).  Both are checked on the implementation for the crash points of
    every generated history (Check/C10.v), together with LMDB's own atomicity, which no model here can exhibit. *)
 Definition C10_crash_recovers_full : Prop := forall cfg genesis_addr team_key n0 (ops : list (block * N)) k j,
   (j <= k)%nat ->
